@@ -77,7 +77,9 @@ def v30_phys(rnd: random.Random, tokens, cuts=True, blank_runs=True):
 
 
 def render_v3000(rnd: random.Random, m: Mol, cuts=True, blank_runs=True, extra_kw=True, index_maps=True, crlf=False,
-                 header=("name", "  prog", "comment")) -> str:
+                 header=("name", "  prog", "comment"), star=None) -> str:
+    """star: optional (anchor atom, [endpoint atoms], bond type): adds a star atom line and a multi-attachment bond line
+    `k type anchor star ENDPTS=(n e1 … en) ATTACH=ALL`; the reader must expand it to one bond (anchor, e_i) per endpoint"""
     n = len(m.atoms)
     if index_maps:
         idx = rnd.choice([list(range(1, n + 1)), rnd.sample(range(1, 50), n), [10 * (i + 1) for i in range(n)]])
@@ -85,7 +87,7 @@ def render_v3000(rnd: random.Random, m: Mol, cuts=True, blank_runs=True, extra_k
         idx = list(range(1, n + 1))
     L = list(header) + ["  0  0  0     0  0            999 V3000"]
     L += v30_phys(rnd, ["BEGIN", "CTAB"], cuts=False, blank_runs=False)
-    L += v30_phys(rnd, ["COUNTS", str(n), str(len(m.bonds)), "0", "0", "0"], cuts=False, blank_runs=blank_runs)
+    L += v30_phys(rnd, ["COUNTS", str(n + (1 if star is not None else 0)), str(len(m.bonds) + (1 if star is not None else 0)), "0", "0", "0"], cuts=False, blank_runs=blank_runs)
     L += v30_phys(rnd, ["BEGIN", "ATOM"], cuts=False, blank_runs=False)
     for i, a in enumerate(m.atoms):
         kv = []
@@ -99,11 +101,21 @@ def render_v3000(rnd: random.Random, m: Mol, cuts=True, blank_runs=True, extra_k
             kv += rnd.sample(EXTRA_ATOM_KW, rnd.randint(0, 2))
         rnd.shuffle(kv)
         L += v30_phys(rnd, [str(idx[i]), a["sym"], repr(a["x"]), repr(a["y"]), repr(a["z"]), "0"] + kv, cuts, blank_runs)
+    star_idx = None
+    if star is not None:
+        star_idx = max(idx) + 7
+        L += v30_phys(rnd, [str(star_idx), "*", "0", "0", "0", "0"], cuts, blank_runs)
     L += v30_phys(rnd, ["END", "ATOM"], cuts=False, blank_runs=False)
-    if m.bonds:
+    if m.bonds or star is not None:
         L += v30_phys(rnd, ["BEGIN", "BOND"], cuts=False, blank_runs=False)
         for k, (i, j, t) in enumerate(m.bonds, 1):
             L += v30_phys(rnd, [str(k), str(t), str(idx[i]), str(idx[j])] + (rnd.sample(EXTRA_BOND_KW, rnd.randint(0, 1)) if extra_kw else []), cuts, blank_runs)
+        if star is not None:
+            anchor, ends, t = star
+            ends_tok = [f"ENDPTS=({len(ends)}"] + [str(idx[e]) for e in ends]
+            ends_tok[-1] += ")"
+            pair = [str(idx[anchor]), str(star_idx)] if rnd.random() < .5 else [str(star_idx), str(idx[anchor])]
+            L += v30_phys(rnd, [str(len(m.bonds) + 1), str(t)] + pair + ends_tok + ["ATTACH=ALL"], cuts, blank_runs)
         L += v30_phys(rnd, ["END", "BOND"], cuts=False, blank_runs=False)
     L += v30_phys(rnd, ["END", "CTAB"], cuts=False, blank_runs=False)
     L.append("M  END")
